@@ -63,7 +63,10 @@ func (fv *FuncVC) call(fr *Frame, b *ssa.BasicBlock, st *State, reach string, x 
 	// callback contract of the enclosing function for this parameter?
 	if name := fv.valueSourceName(fr, cc.Value); name != "" {
 		if cb := fv.callbackSpec(fr, name); cb != nil {
-			return fv.applyCallback(fr, st, reach, cb, args, x.Type(), pos)
+			fv.cbAt = x.Block()
+			r := fv.applyCallback(fr, st, reach, cb, args, x.Type(), pos)
+			fv.cbAt = nil
+			return r
 		}
 	}
 	// typed callback contracts (e.g. flows.EventCallback)
@@ -150,6 +153,10 @@ func (fv *FuncVC) applyCallback(fr *Frame, st *State, reach string, cb *Callback
 	}
 	pre := st.Clone()
 	env := &SpecEnv{fv: fv, names: names, cur: pre, old: pre, pkg: fr.fn.Package().Pkg}
+	if fv.cbAt != nil {
+		// callback contract of a parameter of the enclosing function: its clauses may name that function's variables
+		env.fr, env.at = fr, fv.cbAt
+	}
 	for _, r := range cb.Requires {
 		fv.oblige("pre@callback", cb.Param+":"+clauseLabel(r), reach, fv.evalClause(env, r), r.Text, pos)
 	}
